@@ -12,4 +12,6 @@ X2 == {"G1", "G2", "X"}
 Hs == {"G1", "G2"}
 Ls == {{"G1"}, {"G1", "G2"}}
 Xs == {"G1", "X"}
+NoAlt == {}
+AltG1 == {"G1"}
 ====
